@@ -129,8 +129,12 @@ def field_sites(ctx):
         return res or [(f, st)]
 
     for f in fns:
-        for st in f['structs']:
-            if st['path'].split('::')[-1] == 'RustField':
+        # literals are read from the inlined view of the function that contains them (a `parse_field_type(field)?` helper
+        # inside the builder is expanded), literals that only arrive through inlining belong to the helper itself
+        fv = ctx.x(f)
+        own_lines = {st['line'] for st in f['structs']}
+        for st in fv['structs']:
+            if st['path'].split('::')[-1] == 'RustField' and st['line'] in own_lines and not st.get('via'):
                 out.extend(specialise(f, st))
     have = {f['name'] for f, _ in out}
     missing = [c for c in FIELD_CONSUMERS if c not in have]
